@@ -309,15 +309,17 @@ Proof.
   - rewrite R1, R2, R3, R4, R5. repeat split; assumption.
 Qed.
 
-(* what inv_b gives about the index *)
-Lemma inv_index t :
-  inv_b t = true ->
+(* the facts about the index file and the metadata records that index recovery needs *)
+Definition idx_facts (t : table) : Prop :=
   exists es,
     fbytes (t_index t) = concat (map enc_entry es) /\ es <> [] /\
     forallb entry_wf es = true /\ check_index es = None /\
     mflush (t_mcur t) mod 6 = 0 /\ 6 <= mflush (t_mcur t) /\
     mflush (t_mcur t) <= N.of_nat (fdur (t_index t)) /\ (fdur (t_index t) <= flen (t_index t))%nat /\
     mflush (t_msyn t) = mflush (t_mcur t) /\ mver (t_mcur t) = 2 /\ mver (t_msyn t) = 2.
+
+(* what inv_b gives about the index *)
+Lemma inv_index t : inv_b t = true -> idx_facts t.
 Proof.
   unfold inv_b. intros H.
   destruct (entries_of (fbytes (t_index t))) as [|h rest] eqn:E; [discriminate|].
@@ -345,8 +347,8 @@ Qed.
    every zero-filled extension, whichever of the two metadata records survived, and any
    data files: newTable's checkIndex + repairIndex leave exactly the index bytes below the
    flush offset, and the metadata record as found. *)
-Lemma crash_index_recovers t c p data (cm : bool) :
-  inv_b t = true -> valid_cut (t_index t) c p ->
+Lemma crash_index_recovers_facts t c p data (cm : bool) :
+  idx_facts t -> valid_cut (t_index t) c p ->
   let m := if cm then t_mcur t else t_msyn t in
   let u := open_repair_index (crash_file (t_index t) c p) data (Some m) in
   fbytes (t_index u) = firstn (N.to_nat (mflush (t_mcur t))) (fbytes (t_index t))
@@ -355,7 +357,7 @@ Lemma crash_index_recovers t c p data (cm : bool) :
   /\ t_data u = data.
 Proof.
   intros Hinv [Hc1 Hc2] m u.
-  destruct (inv_index t Hinv) as [es [Hb [Hne [Hwf [Hok [Hmod [H6 [Hdur [Hfw [Hsyn [Hv1 Hv2]]]]]]]]]]].
+  destruct Hinv as [es [Hb [Hne [Hwf [Hok [Hmod [H6 [Hdur [Hfw [Hsyn [Hv1 Hv2]]]]]]]]]]].
   set (F := mflush (t_mcur t)) in *.
   set (nF := N.to_nat (F / 6)).
   assert (HF : F = 6 * N.of_nat nF) by (subst nF; lia).
@@ -388,6 +390,16 @@ Proof.
   - exact Hmv.
   - subst u. rewrite R1, R2, R3, R4, HmF, HPre. repeat split; reflexivity.
 Qed.
+
+Lemma crash_index_recovers t c p data (cm : bool) :
+  inv_b t = true -> valid_cut (t_index t) c p ->
+  let m := if cm then t_mcur t else t_msyn t in
+  let u := open_repair_index (crash_file (t_index t) c p) data (Some m) in
+  fbytes (t_index u) = firstn (N.to_nat (mflush (t_mcur t))) (fbytes (t_index t))
+  /\ t_mcur u = mkMeta 2 (mvtail m) (mflush (t_mcur t))
+  /\ t_msyn u = mkMeta 2 (mvtail m) (mflush (t_mcur t))
+  /\ t_data u = data.
+Proof. intros H. apply crash_index_recovers_facts. apply inv_index. exact H. Qed.
 
 (* ---------- witnesses (evaluated in Properties/C24.v) ---------- *)
 Definition blob4 (i : N) : list N := [i; 1; 2; 3].
